@@ -25,6 +25,13 @@ def check_trained(rd, tf, enc, cov, wit, dist):
     from lib_trainer.trainer_file_input import TrainerFileInput
     valid = list(TrainerFileInput(tf, enc).read_password())
     mw, _ = train_util.first_pass(valid)
+    # the trained detector as it stands before the second pass: every password is segmented below by a detector object that has
+    # answered nothing yet (an answer must not depend on what the object was asked before)
+    import pickle
+    try:
+        pristine = pickle.dumps(mw)
+    except Exception:
+        pristine = None
     parser = train_util.second_pass(valid, mw)
     n_valid = len(valid)
     # the counts are those of the segmentation: every counter of the real parser (which saw the whole list, in file order) must be the
@@ -35,7 +42,7 @@ def check_trained(rd, tf, enc, cov, wit, dist):
         _c05.load_context_list()
         secs_all, infos_all = [], []
         for pw_ in valid:
-            _line, secs_, info_ = _cd.real_parse_line(pw_, mw)
+            _line, secs_, info_ = _cd.real_parse_line(pw_, pickle.loads(pristine) if pristine is not None else mw)
             secs_all.append(secs_)
             infos_all.append(info_)
         ind = _c05.tallies(secs_all, infos_all)
@@ -161,6 +168,9 @@ def run(ctx):
             pws, cov = ['1qaz2wsx', 'qwerty!!', '#1love', 'zaq1!@#', '$$$', 'pass1999', 'Ab12!', 'ab', 'x'], 0.6
         elif i == 1:
             pws, cov = ['password1', 'hello22', 'abc', 'Summer', 'password1', '12345'], 0.6
+        elif i == 3:
+            # a three-word compound, then its two-word tail on its own (rare, capitalised, followed by digits)
+            pws, cov = gen_passwords.multiword_family(__import__('random').Random(3), ('blue', 'moon', 'star')) + ['Blue12', 'star!', 'moon77'], 0.6
         elif i == 2:
             # a fresh parser meets, in its first passwords, two segments of one kind with two new lengths
             pws, cov = gen_passwords.FRESH_LENGTHS_CORPUS + pws, 0.6
